@@ -626,6 +626,35 @@ func runKeys(s *summary, k *h.Keys, root *h.Rng, n int, thorough bool, addCase a
 					check(addCase(m, img, vo, d2), d2, !bytes.Equal(fp[:20], real))
 				}
 			}
+			// the same for the second of two signatures over the same group (the same signed
+			// metadata): PGP after PGP, PGP after DSSE
+			e2 := (e + 1) % 3
+			for _, spec := range []h.BaseSpec{
+				{Scheme: "pgp", Entity: e, CoSign: &h.BaseSpec{Scheme: "pgp", Entity: e2}},
+				{Scheme: "dsse", DSSEKeys: []string{h.Pick(r, k.Names)}, CoSign: &h.BaseSpec{Scheme: "pgp", Entity: e2}},
+			} {
+				img := signedBase(k, r, spec)
+				sds := h.SigDescs(img)
+				if len(sds) < 2 {
+					continue
+				}
+				sd := sds[len(sds)-1]
+				si, _ := h.DecodeImage(img)
+				for j, d := range si.Descs {
+					if d.Used && d.ID == sd.ID {
+						o := int(si.H.DescOff) + j*h.DescSize + 201 + 4
+						real2 := k.Entities[e2].PrimaryKey.Fingerprint
+						for _, fp := range [][]byte{k.Entities[e].PrimaryKey.Fingerprint, k.Entities[(e+2)%3].PrimaryKey.Fingerprint, h.GenContent(r, 20), make([]byte, 20)} {
+							m := bytes.Clone(img)
+							copy(m[o:o+20], fp[:20])
+							vo := h.VOptsFor(spec)
+							vo.PGPEntities = allEnts
+							desc := fmt.Sprintf("{%s}: descriptor fingerprint of the second signature (by entity %d) rewritten to %x, all entities trusted", spec.String(), e2, fp)
+							check(addCase(m, img, vo, desc), desc, !bytes.Equal(fp[:20], real2))
+						}
+					}
+				}
+			}
 			// two groups signed by different DSSE keys, both trusted: each signature reports its own signer
 			ka, kb := k.Names[r.Intn(len(k.Names))], k.Names[r.Intn(len(k.Names))]
 			two := h.BaseSpec{Scheme: "dsse", DSSEKeys: []string{ka}, TwoGroups: true, Groups: []uint32{1},
